@@ -24,6 +24,7 @@ func (p Problem) String() string { return fmt.Sprintf("[%s] %s: %s", p.Kind, p.P
 type Opts struct {
 	SkipData  bool // do not compare dataset values
 	SkipLinks bool // do not require soft/external links to be visible (the public read API has no accessor)
+	RefCount  bool // require each dataset's stored reference count to equal the number of hard links in the model
 }
 
 func u64s(a []uint64) string { return fmt.Sprint(a) }
@@ -204,6 +205,9 @@ func CompareDataset(path string, o *Obj, d *obs.Dataset, opt Opts) []Problem {
 		if sign := d.BitField&0x08 != 0; sign != baseTypes[base].signed {
 			ps = append(ps, Problem{"dataset-sign", path, fmt.Sprintf("signed bit %v, created as %s", sign, s.Type)})
 		}
+	}
+	if opt.RefCount && d.RefCount != uint32(o.NLinks) {
+		ps = append(ps, Problem{"dataset-refcount", path, fmt.Sprintf("reference count %d, but %d hard link(s) point to the object", d.RefCount, o.NLinks)})
 	}
 	if !eqU64(d.Dims, o.Dims) {
 		ps = append(ps, Problem{"dataset-shape", path, fmt.Sprintf("dims %v, model %v", d.Dims, o.Dims)})
